@@ -46,7 +46,14 @@ def ref_pep440(s):
 
 
 # a glob for each generated file name that matches that file only
-GLOBS = {"src/mod.py": "src/*.py", "README.md": "README.*", "docs/conf.py": "docs/c*.py", "notes.txt": "*.txt", "setup.py": "setup.*"}
+GLOB_CHOICES = {
+    "src/mod.py": ["src/*.py", "src/**/*.py", "./src/mod.py"],
+    "README.md": ["README.*", "./README.md"],
+    "docs/conf.py": ["docs/c*.py", "**/conf.py", "docs//conf.py"],
+    "notes.txt": ["*.txt", "./notes.txt"],
+    "setup.py": ["setup.*", "./setup.py"],
+}
+GLOBS = {k: v[0] for k, v in GLOB_CHOICES.items()}
 
 
 class Scenario:
@@ -63,11 +70,16 @@ class Scenario:
         self.push = self.commit and r.random() < 0.4
         self.dry = r.random() < 0.25
         self.flags = [r.choice(fam["flags"])] if fam["flags"] else []
+        if "TAG" in self.pattern and r.random() < 0.3:
+            # release tag changes, alone (may go backwards: alpha after beta must be rejected) or with a numeric bump
+            self.flags = (self.flags if r.random() < 0.5 else []) + ["--tag", r.choice(["alpha", "beta", "rc", "final", "post"])]
         self.set_version = None
         if r.random() < 0.15:
             self.flags = []
             self.set_version = r.choice(["greater", "equal", "lower", "malformed", "pep_equal"])
-        self.commit_message = r.choice([None, None, "bump {old_version} -> {new_version}", "it's a bump to {new_version}", 'say "hi" OLD -> NEW', "a' --amend '"])
+        self.commit_message = r.choice([None, None, "bump {old_version} -> {new_version}", "it's a bump to {new_version}", 'say "hi" OLD -> NEW', "a' --amend '", "release {version} (unknown placeholder)"])
+        # the configured template may contain the words OLD/NEW: the shorthand is a command-line feature only
+        self.cfg_commit_message = r.choice(["bump version {old_version} -> {new_version}", "bump version {old_version} -> {new_version}", "Brand NEW release {new_version}, OLD one was {old_version}"])
         self.nfiles = r.randint(1, 4)
         self.files = {}
         self.occ = {}  # file -> list of (line index, kind)
@@ -96,8 +108,15 @@ class Scenario:
                     pats.append('__version__ = "{version}"')
                     text = '__version__ = "\x01"'
                 if same_line and i == 1:
-                    lines[occ[0][0]] = lines[occ[0][0]] + "   " + text
-                    occ.append((occ[0][0], k))
+                    if r.random() < 0.5:
+                        lines[occ[0][0]] = lines[occ[0][0]] + "   " + text
+                        occ.append((occ[0][0], k))
+                    else:
+                        # the later-configured pattern's occurrence to the LEFT of the earlier one, plus a line of its own
+                        lines[occ[0][0]] = text + "   " + lines[occ[0][0]]
+                        occ.append((occ[0][0], k))
+                        lines.append("again: " + text)
+                        occ.append((len(lines) - 1, k))
                 else:
                     lines.append(text)
                     occ.append((len(lines) - 1, k))
@@ -111,6 +130,7 @@ class Scenario:
             self.kinds_ok = kinds is not None
         # config spelling of the file entries: plain path, a glob, or two entries for one file
         self.split_entries = {fn: r.choice(["explicit_first", "glob_first"]) for fn in sorted(self.files) if r.random() < 0.3}
+        self.globs = {fn: r.choice(GLOB_CHOICES[fn]) for fn in sorted(self.files)}  # recursive globs, ./ prefixes, doubled slashes
         self.fault = r.choice([None, None, None, "nomatch", "missing", "nomatch_one"])
         self.fault_file = r.choice(sorted(self.files)) if self.fault else None
         if self.fault == "nomatch_one":
@@ -140,8 +160,9 @@ class Scenario:
         self.dirty = r.choice(["", "", "", "?? untracked.txt\n", " M notes_other.txt\n"]) if self.commit else ""
         self.allow_dirty = r.random() < 0.3
         self.fail_cmd = r.choice([None, None, None, "commit", "tag", "push"]) if self.commit else None
-        self.pre_hook = r.choice([None, None, "ok", "fail"]) if self.commit else None
-        self.post_hook = r.choice([None, None, "ok", "fail"]) if self.commit else None
+        # "signal": the hook script is killed by a signal (negative return code in subprocess): a failure like exit 3
+        self.pre_hook = r.choice([None, None, "ok", "fail", "signal"]) if self.commit else None
+        self.post_hook = r.choice([None, None, "ok", "fail", "signal"]) if self.commit else None
 
     def render(self, lines, v):
         return [ln.replace("\x01", v).replace("\x02", self._pep(v)) for ln in lines]
@@ -170,12 +191,12 @@ class Scenario:
             if fn in self.split_entries and len(plist) == 2:
                 # the same file reached through two entries (explicit path and a glob that matches only it), the
                 # second one after the entries of the other files: "globbed and repeated file entries"
-                first, second = (fn, GLOBS[fn]) if self.split_entries[fn] == "explicit_first" else (GLOBS[fn], fn)
+                first, second = (fn, self.globs[fn]) if self.split_entries[fn] == "explicit_first" else (self.globs[fn], fn)
                 fp_lines.append(f'"{first}" = [\'{plist[0]}\']')
                 late_lines.append(f'"{second}" = [\'{plist[1]}\']')
                 continue
             if fn in self.split_entries and len(plist) == 1:
-                fp_lines.append(f'"{GLOBS[fn]}" = [\'{plist[0]}\']')
+                fp_lines.append(f'"{self.globs[fn]}" = [\'{plist[0]}\']')
                 continue
             pats = ", ".join("'" + p + "'" for p in plist)
             fp_lines.append(f'"{fn}" = [{pats}]')
@@ -185,14 +206,14 @@ class Scenario:
             if mode:
                 hp = os.path.join(d, name + ".sh")
                 with open(hp, "w") as fh:
-                    fh.write(f'#!/bin/sh\nprintf "%s\\0%s\\0%s\\001" "HOOK:{name}" "$BUMPVER_OLD_VERSION" "$BUMPVER_NEW_VERSION" >> "$FAKEGIT_DIR/argv.log"\nexit {0 if mode == "ok" else 3}\n')
+                    fh.write(f'#!/bin/sh\nprintf "%s\\0%s\\0%s\\001" "HOOK:{name}" "$BUMPVER_OLD_VERSION" "$BUMPVER_NEW_VERSION" >> "$FAKEGIT_DIR/argv.log"\n{"exit 0" if mode == "ok" else "exit 3" if mode == "fail" else "kill -KILL $$"}\n')
                 os.chmod(hp, 0o755)
                 hooks += f'{name} = "{name}.sh"\n'
         cfg = (
             "[bumpver]\n"
             f'current_version = "{self.current}"\n'
             f'version_pattern = "{self.pattern}"\n'
-            'commit_message = "bump version {old_version} -> {new_version}"\n'
+            f'commit_message = "{self.cfg_commit_message}"\n'
             'tag_message = "{new_version}"\n'
             f'tag_scope = "{self.scope}"\n'
             f"{hooks}"
@@ -351,18 +372,20 @@ def check_scenario(seed, keep_dir=False):
         # ---- C03 / C04: successful real run rewrote exactly the occurrences
         if rc == 0 and not sc.dry and new is not None and sc.kinds_ok:
             written = new
-            if sc.set_version == "pep_equal" and canonical_spelling(new) != new:
-                # --set-version with a non-canonical spelling the pattern's regex accepts (leading zeros): bumpver
-                # announces/tags the given text but writes its own rendering. Known finding (C03, C08); everything
+            m_cfg = re.search(r'current_version = "([^"]*)"', after.get("bumpver.toml", b"").decode("utf-8", "replace"))
+            in_cfg = m_cfg.group(1) if m_cfg else None
+            if sc.set_version is not None and in_cfg is not None and in_cfg != new and in_cfg != sc.current and ref_key(in_cfg) == ref_key(new):
+                # --set-version with a spelling the pattern's regex accepts but bumpver does not render (leading zeros):
+                # the given text is announced/tagged, bumpver's own rendering is written. Known finding (C03); everything
                 # else is judged against the text that is actually written.
-                written = canonical_spelling(new)
+                written = in_cfg
                 res["C03"] = f"[set_version_noncanonical] announced {new!r} but occurrences and config are written as {written!r}"
             announced, new = new, written
             for fn, lines in sc.files.items():
                 exp = sc.render(lines, new)
                 want = (sc.sep.join(exp) + (sc.sep if sc.final_newline else "")).encode("utf-8")
                 got = after.get(fn)
-                if got != want:
+                if got is None or _pep_spelling(got) != _pep_spelling(want):
                     same_line = len({li for li, _ in sc.occ[fn]}) < len(sc.occ[fn])
                     res["C03" if same_line or got is None or sc.current.encode() in got else "C04"] = f"{fn}: content after update differs from expectation (same-line occurrences: {same_line})"
             cfgtxt = after.get("bumpver.toml", b"").decode("utf-8")
@@ -384,7 +407,7 @@ def check_scenario(seed, keep_dir=False):
                     res["C10"] = f"steps {seq} != expected {exp_steps}"
                 commits = [c for c in calls if c and c[0] == "commit"]
                 if commits:
-                    tmpl = sc.commit_message if sc.commit_message is not None else "bump version {old_version} -> {new_version}"
+                    tmpl = sc.commit_message if sc.commit_message is not None else sc.cfg_commit_message
                     tmpl = re.sub(r"\b(OLD|NEW)\b", r"{\1_VERSION}", tmpl) if sc.commit_message is not None else tmpl
                     try:
                         want_msg = tmpl.format(new_version=new, old_version=old, NEW_VERSION=new, OLD_VERSION=old, new_version_pep440=sc._pep(new), old_version_pep440=sc._pep(old))
@@ -399,11 +422,11 @@ def check_scenario(seed, keep_dir=False):
                     if h[1:] != [old, new]:
                         res["C10"] = f"hook env {h}"
             first_fail = None
-            if sc.pre_hook == "fail":
+            if sc.pre_hook in ("fail", "signal"):
                 first_fail = "hook:pre_commit_hook"
             elif sc.fail_cmd == "commit":
                 first_fail = "commit"
-            elif sc.post_hook == "fail":
+            elif sc.post_hook in ("fail", "signal"):
                 first_fail = "hook:post_commit_hook"
             elif sc.fail_cmd == "tag" and sc.tag:
                 first_fail = "tag"
@@ -413,9 +436,24 @@ def check_scenario(seed, keep_dir=False):
                 res["C10"] = f"steps continued after failing {first_fail}: {seq}"
             if first_fail and first_fail in seq and rc == 0:
                 res["C10"] = f"exit 0 although {first_fail} failed"
+        # ---- C13: the diff printed by --dry shows the lines a real run writes, each as one line of output
+        m_newd = re.search(r"New Version: (\S+)", err_dry + out_dry)
+        if rc_dry == 0 and m_newd and sc.kinds_ok and sc.fault is None and not (sc.set_version == "pep_equal"):
+            shown = [_pep_spelling(x) for x in (out_dry + "\n" + err_dry).split("\n")]
+            for fn, lines in sc.files.items():
+                old_l, new_l = sc.render(lines, sc.current if old is None else old), sc.render(lines, m_newd.group(1))
+                if old is not None and old != sc.current:
+                    continue  # started from a tag: the files on disk do not show the start version
+                for li, _k in sc.occ[fn]:
+                    if old_l[li] == new_l[li]:
+                        continue
+                    need = ["-" + old_l[li], "+" + new_l[li]] + [" " + old_l[j] for j in (li - 1, li - 2) if j >= 0 and old_l[j] == new_l[j]]
+                    missing = [x for x in need if _pep_spelling(x) not in shown]
+                    if missing:
+                        res["C13"] = f"--dry output does not show {missing[0]!r} as a line of the diff of {fn}"
         # ---- C13: dry exit 0 => real run's rewrite phase succeeds
         if rc_dry == 0 and not sc.dry and sc.fault is None:
-            if rc != 0 and not (sc.fail_cmd or sc.pre_hook == "fail" or sc.post_hook == "fail" or (bool(sc.dirty) and not sc.dirty.startswith("??") and not sc.allow_dirty)):
+            if rc != 0 and not (sc.fail_cmd or sc.pre_hook in ("fail", "signal") or sc.post_hook in ("fail", "signal") or (bool(sc.dirty) and not sc.dirty.startswith("??") and not sc.allow_dirty)):
                 res["C13"] = f"--dry exit 0 but real run exit {rc}: {err[-200:]}"
         if res:
             res["_detail"] = dict(seed=seed, pattern=sc.pattern, current=sc.current, argv=sc.argv(sc.dry)[2:], exit=rc, old=old, new=new, fault=sc.fault, stderr=err[-400:])
@@ -427,6 +465,13 @@ def check_scenario(seed, keep_dir=False):
     finally:
         if not keep_dir:
             shutil.rmtree(d, ignore_errors=True)
+
+
+def _pep_spelling(x):
+    """PEP 440 allows '1.0.post0' and '1.0post0' ('.dev0' / 'dev0') for the same version: compare modulo that dot."""
+    if isinstance(x, bytes):
+        return re.sub(rb"(?<=\d)\.(post|dev)(?=\d)", rb"\1", x)
+    return re.sub(r"(?<=\d)\.(post|dev)(?=\d)", r"\1", x)
 
 
 def canonical_spelling(v):
